@@ -99,6 +99,8 @@ def check(case):
     walk.require_views(ref, "a + b")
     d = norm.diff(dref, doc(a), norm.BITEXACT)
     require(not d, "iadd-differs-from-add", lambda: f"a += b vs a + b: {norm.fmt(d)}")
+    # the library's own == looks at more than the document (what the quantities are, not only what they are called)
+    require((a == ref) is True and (ref == a) is True, "iadd-not-equal-to-add", "a += b and a + b have the same document but do not compare equal")
     d = norm.diff(db0, doc(b), norm.BITEXACT)
     require(not d, "iadd-mutated-rhs", lambda: f"b changed by a += b: {norm.fmt(d)}")
     sh = walk.identity_set(a) & walk.identity_set(b)
@@ -112,6 +114,19 @@ def check(case):
         for row, w in [(r_, w_) for r_, w_ in case["more_a"]] + again:
             a.fill(row, w)
             ref.fill(row, w)
+    else:
+        # ... and stays what it was: a += b and a + b react the same way to a further record (both refuse it, or both
+        # take it and agree afterwards) - merging a fillable b into it does not hand b's fill rule over
+        rows = [r_ for r_, _ in case["more_a"]][:2] or [{"x": 0.0, "y": 0.0, "z": 0.0, "w": 1.0, "s": "a", "t": "a", "b": False}]
+        for row in rows:
+            outcomes = []
+            for target in (ref, a):
+                try:
+                    target.fill(row, 1.0)
+                    outcomes.append("took it")
+                except Exception as e:  # noqa: BLE001 - the two reactions are compared, whatever they are
+                    outcomes.append("raised " + type(e).__name__)
+            require(outcomes[0] == outcomes[1], "iadd-changed-fillability", f"a reloaded a after a += b {outcomes[1]} when filled, a + b {outcomes[0]}")
     if b_mutable:
         twin = states.realize(spec_b, case["b"])
         for row, w in case["more_b"]:
